@@ -151,7 +151,11 @@ class WaitForConditionOperationExecutor(OperationExecutor[T]):
             Raises error if check function fails
         """
         # Determine current state from checkpoint
-        if checkpointed_result.is_started_or_ready() and checkpointed_result.result:
+        # (an empty string is a recorded state too - e.g. with a pass-through serdes - not "nothing recorded")
+        if (
+            checkpointed_result.is_started_or_ready()
+            and checkpointed_result.result is not None
+        ):
             try:
                 current_state = deserialize(
                     serdes=self.config.serdes,
